@@ -83,6 +83,8 @@ def main(tier, replay=None):
             bad += PUSH_BAD
         if kind == "Tuple":
             bad += ["resize_grow"]
+        if kind == "Array":
+            bad += ["resize_huge", "resize_wrap"]
         for et, vals in (("Int", [0, 3, 7, 11]), ("String", [b"", b"x%d", b"%$", b"\xfe"]), ("Probe", [0, 1, 2, 3])):
             if kind == "Tuple" and et == "Probe":
                 continue
